@@ -75,6 +75,14 @@ Proof. exact (single_add_correct K Kf alpha). Qed.
 Theorem C14_single_del_correct : forall C y V d, C * (y + alpha) = V -> d + alpha <> 0 -> d - y <> 0 ->
   single_update K C y V (Vnext K alpha V [] [d]) [] [d] * (y + alpha) = Vnext K alpha V [] [d].
 Proof. exact (single_del_correct K Kf Keq alpha). Qed.
+Theorem C14_single_add_correct_nm : forall (w : K * K) y V a, fst w * (y + alpha) + snd w = V ->
+  let w' := single_update_nm K w y V (Vnext K alpha V [a] []) [a] [] in
+  fst w' * (y + alpha) + snd w' = Vnext K alpha V [a] [] /\ snd w' = snd w * (a - y).
+Proof. exact (single_add_correct_nm K Kf alpha). Qed.
+Theorem C14_single_del_correct_nm : forall (w : K * K) y V d, fst w * (y + alpha) + snd w = V -> d + alpha <> 0 -> d - y <> 0 ->
+  let w' := single_update_nm K w y V (Vnext K alpha V [] [d]) [] [d] in
+  fst w' * (y + alpha) + snd w' = Vnext K alpha V [] [d] /\ snd w' = snd w * finv K (d - y).
+Proof. exact (single_del_correct_nm K Kf Keq alpha). Qed.
 Theorem C14_single_del_self : forall C y V, single_update K C y V (Vnext K alpha V [] [y]) [] [y] = C.
 Proof. exact (single_del_self K Kf Keq alpha). Qed.
 Theorem C14_single_two_additions_refuted : forall C y V a1 a2, C * (y + alpha) = V ->
